@@ -9,7 +9,7 @@ Section Builder.
   Inductive bval := BNone | BVal (a : arg) | BKids (ms : list bmsg)
   with bmsg := BM (tag dt : N) (v : bval).
 
-  Inductive berr := Empty | NotATag | MissingValue | TagOrTypeAsValue | Fuel.
+  Inductive berr := Empty | NotATag | MissingValue | TagOrTypeAsValue | NoArguments | Fuel.
   Inductive res (A : Type) := Ok (a : A) | Err (e : berr).
   Arguments Ok {A}. Arguments Err {A}.
 
@@ -45,6 +45,21 @@ Section Builder.
              end
       end
     end.
+
+  (* CreateRequest: one message from the argument list (arguments left over after a complete message are ignored) *)
+  Definition create_request (args : list arg) : res bmsg :=
+    match create (S (2 * length args)) args with Ok (m, _) => Ok m | Err e => Err e end.
+  (* CreateRequests: the single form applied to each list in turn; no lists at all is an error *)
+  Fixpoint map_requests (ls : list (list arg)) : res (list bmsg) :=
+    match ls with
+    | [] => Ok []
+    | l :: r => match create_request l with
+                | Err e => Err e
+                | Ok m => match map_requests r with Ok ms => Ok (m :: ms) | Err e => Err e end
+                end
+    end.
+  Definition create_requests (ls : list (list arg)) : res (list bmsg) :=
+    match ls with [] => Err NoArguments | _ => map_requests ls end.
 
   (* the documented grammar *)
   Inductive Derives : list arg -> bmsg -> list arg -> Prop :=
@@ -120,6 +135,89 @@ Section Builder.
     - apply (proj1 (create_sound _)).
     - intro H. apply create_complete; [exact H|lia].
   Qed.
-End Builder.
 
-Print Assumptions C18_grammar.
+  (* ---- the documented errors, as a relation on argument lists ---- *)
+  Inductive Fails : list arg -> berr -> Prop :=
+  | F_empty : Fails [] Empty
+  | F_notatag a rest : (forall t, a <> ATag t) -> Fails (a :: rest) NotATag
+  | F_missing t : tag_dt t <> 0 -> tag_dt t <> 14 -> Fails [ATag t] MissingValue
+  | F_tagortype t v rest : tag_dt t <> 0 -> tag_dt t <> 14 -> is_value v = false -> Fails (ATag t :: v :: rest) TagOrTypeAsValue
+  | F_child t rest e : tag_dt t = 14 -> FailsAll rest e -> Fails (ATag t :: rest) e
+  with FailsAll : list arg -> berr -> Prop :=
+  | FA_here a args e : Fails (a :: args) e -> FailsAll (a :: args) e
+  | FA_later a args m rest e : Derives (a :: args) m rest -> FailsAll rest e -> FailsAll (a :: args) e.
+
+  Theorem create_errors : forall fuel,
+    (forall args e, create fuel args = Err e -> e = Fuel \/ Fails args e) /\
+    (forall args e, kids fuel args = Err e -> e = Fuel \/ FailsAll args e).
+  Proof.
+    induction fuel as [|f [IHc IHk]]; [split; intros args e H; injection H as <-; left; reflexivity|]. split.
+    - intros args e H. cbn [create] in H.
+      destruct args as [|a args]; [injection H as <-; right; constructor|].
+      destruct a as [t|d|k|]; try (injection H as <-; right; constructor; intros t0 E; discriminate E).
+      destruct (N.eqb_spec (tag_dt t) 0) as [E0|N0]; [discriminate|].
+      destruct (N.eqb_spec (tag_dt t) 14) as [E14|N14].
+      + destruct (kids f args) as [ks|e'] eqn:Ek; [discriminate|]. injection H as <-.
+        destruct (IHk _ _ Ek) as [->|Hf]; [left; reflexivity|right; apply F_child; assumption].
+      + destruct args as [|v args]; [injection H as <-; right; constructor; assumption|].
+        destruct (is_value v) eqn:Ev; [discriminate|]. injection H as <-. right. constructor; assumption.
+    - intros args e H. cbn [kids] in H.
+      destruct args as [|a args]; [discriminate|].
+      destruct (create f (a :: args)) as [[m rest]|e'] eqn:Ec.
+      + destruct (kids f rest) as [ms'|e''] eqn:Ek; [discriminate|]. injection H as <-.
+        destruct (IHk _ _ Ek) as [->|Hf]; [left; reflexivity|].
+        right. eapply FA_later; [apply (proj1 (create_sound f)); exact Ec|exact Hf].
+      + injection H as <-. destruct (IHc _ _ Ec) as [->|Hf]; [left; reflexivity|right; constructor; exact Hf].
+  Qed.
+
+  (* the fuel 2 * length + 1 is never exhausted *)
+  Theorem create_no_fuel : forall fuel,
+    (forall args, (2 * length args < fuel)%nat -> create fuel args <> Err Fuel) /\
+    (forall args, (2 * length args + 1 < fuel)%nat \/ (args = [] /\ (0 < fuel)%nat) -> kids fuel args <> Err Fuel).
+  Proof.
+    induction fuel as [|f [IHc IHk]]; [split; intros args H; [lia|destruct H as [H|[_ H]]; lia]|]. split.
+    - intros args Hl H. cbn [create] in H.
+      destruct args as [|a args]; [discriminate|].
+      destruct a as [t|d|k|]; try discriminate.
+      destruct (tag_dt t =? 0); [discriminate|].
+      destruct (tag_dt t =? 14).
+      + destruct (kids f args) as [ks|e'] eqn:Ek; [discriminate|]. injection H as ->.
+        revert Ek. apply IHk. cbn [length] in Hl.
+        destruct args as [|a' args']; [right; split; [reflexivity|lia]|left; cbn [length] in *; lia].
+      + destruct args as [|v args]; [discriminate|]. destruct (is_value v); discriminate.
+    - intros args Hl H. cbn [kids] in H.
+      destruct args as [|a args]; [discriminate|].
+      destruct Hl as [Hl|[E _]]; [|discriminate].
+      destruct (create f (a :: args)) as [[m rest]|e'] eqn:Ec.
+      + destruct (kids f rest) as [ms'|e''] eqn:Ek; [discriminate|]. injection H as ->.
+        revert Ek. apply IHk. pose proof (create_shrinks _ _ _ _ Ec) as Hs.
+        destruct rest as [|r0 rest']; [right; split; [reflexivity|cbn [length] in *; lia]|left; cbn [length] in *; lia].
+      + injection H as ->. revert Ec. apply IHc. lia.
+  Qed.
+
+  Theorem C18_fuel args : create_request args <> Err Fuel.
+  Proof.
+    unfold create_request. intro H.
+    destruct (create (S (2 * length args)) args) as [[m r]|e] eqn:E; [discriminate|]. injection H as ->.
+    revert E. apply (proj1 (create_no_fuel _)). lia.
+  Qed.
+
+  (* every argument list either builds the documented tree or fails with the documented error *)
+  Theorem C18_total args :
+    (exists m rest, create_request args = Ok m /\ Derives args m rest) \/
+    (exists e, create_request args = Err e /\ Fails args e).
+  Proof.
+    pose proof (C18_fuel args) as NF. unfold create_request in *.
+    destruct (create (S (2 * length args)) args) as [[m r]|e] eqn:E.
+    - left. exists m, r. split; [reflexivity|apply C18_grammar; exact E].
+    - right. exists e. split; [reflexivity|].
+      destruct (proj1 (create_errors _) _ _ E) as [->|Hf]; [exfalso; apply NF; reflexivity|exact Hf].
+  Qed.
+
+  Theorem C18_multi ls : create_requests ls =
+    match ls with [] => Err NoArguments | _ => map_requests ls end.
+  Proof. reflexivity. Qed.
+End Builder.
+Arguments Ok {A}. Arguments Err {A}.
+
+Print Assumptions C18_grammar. Print Assumptions C18_total.
